@@ -161,10 +161,10 @@ def reset_global_state():
                 f.cache_clear()
 
 
-def new_file(n_lf=1):
+def new_file(n_lf=1, same_id=False):
     reset_global_state()
     df = DLISFile()
-    lfs = [df.add_logical_file(fh_id='LF' + str(i), fh_sequence_number=i + 1) for i in range(n_lf)]
+    lfs = [df.add_logical_file(fh_id='LF' + ('' if same_id else str(i)), fh_sequence_number=i + 1) for i in range(n_lf)]
     return df, lfs
 
 
